@@ -264,7 +264,7 @@ def _same_mdp(case, label, m1, m2, ValueIteration, sp):
     if tuple(m1.state_list) != tuple(m2.state_list) or tuple(m1.action_list) != tuple(m2.action_list):
         return
     for name in ("transition_matrix", "reward_matrix", "action_matrix", "state_action_reward_matrix",
-                 "initial_state_vec", "absorbing_state_vec"):
+                 "initial_state_vec", "absorbing_state_vec", "reachable_state_vec"):
         a, b = np.array(getattr(m1, name)), np.array(getattr(m2, name))
         case.count("elements_compared", a.size)
         case.check(a.shape == b.shape and np.array_equal(a, b), f"{label}:{name}-differs", "")
